@@ -29,3 +29,12 @@ def bounded(world, tier, seed, rep):
 def bounded_search(world, unit_name):
     f, n = cn.search(PROP)
     return [dict(f, clause="C01/native-roundtrip")] if f else []
+
+
+def rebuild_inlined(world, failing_helpers):
+    """Stale helper clauses: re-prove with the bodies of the functions whose helper clauses failed inlined into their callers."""
+    bad = {h["unit"].split("[")[0] for h in failing_helpers}
+    units = build(world)
+    for u in units:
+        u.no_contract_for = tuple(bad)
+    return units
